@@ -104,6 +104,12 @@ def oracle(ctx, trig, n_docs, per_rule={}):
     return n
 
 
+def api_part(ctx):
+    """speedup has no trigger characters: through mistune.markdown() and its argument-keyed converter cache, adding it must change nothing either (shared with C09)"""
+    import importlib
+    return importlib.import_module("props.c09").api_part(ctx)
+
+
 def run(ctx):
     ctx.broken += common.proof_stage(ctx, THEOREMS)
     trig, per_rule = plugin_triggers()
@@ -112,6 +118,7 @@ def run(ctx):
             if not cs and rn not in ("text", "paragraph"):
                 ctx.broken.append("plugin %s rule %s has no needed character (trigger set not computable)" % (p, rn))
     n = oracle(ctx, trig, 6000 if ctx.quick() else 80000, per_rule)
+    n += api_part(ctx)
     if ctx.broken and not ctx.failures:
         ctx.notes.append("search mode entered")
         n += oracle(ctx, trig, 40000, per_rule)
